@@ -2635,6 +2635,10 @@ func (s *Server) serveConnCounted(c net.Conn, countConcurrency bool) error {
 		// store req.ConnectionClose so even if it was changed inside of handler.
 		// Preserve connectionClose if already set (e.g., by ExpectHandler).
 		connectionClose = connectionClose || s.DisableKeepalive || ctx.Request.Header.ConnectionClose()
+		// Same for the method and the protocol: after a timeout the request
+		// stays with the timed out handler.
+		reqIsHead := ctx.IsHead()
+		reqIsHTTP11 := ctx.Request.Header.IsHTTP11()
 
 		if serverName != "" {
 			ctx.Response.Header.SetServer(serverName)
@@ -2661,9 +2665,12 @@ func (s *Server) serveConnCounted(c net.Conn, countConcurrency bool) error {
 			// Acquire a new ctx because the old one will still be in use by the timeout out handler.
 			ctx = s.acquireCtx(c)
 			timeoutResponse.CopyTo(&ctx.Response)
+		} else {
+			reqIsHead = ctx.IsHead()
+			reqIsHTTP11 = ctx.Request.Header.IsHTTP11()
 		}
 
-		if ctx.IsHead() {
+		if reqIsHead {
 			ctx.Response.SkipBody = true
 		}
 
@@ -2691,7 +2698,7 @@ func (s *Server) serveConnCounted(c net.Conn, countConcurrency bool) error {
 			(s.CloseOnShutdown && s.stop.Load() == 1)
 		if connectionClose {
 			ctx.Response.Header.SetConnectionClose()
-		} else if !ctx.Request.Header.IsHTTP11() {
+		} else if !reqIsHTTP11 {
 			// Set 'Connection: keep-alive' response header for HTTP/1.0 request.
 			// There is no need in setting this header for http/1.1, since in http/1.1
 			// connections are keep-alive by default.
